@@ -25,6 +25,13 @@ pub enum Op {
   PostSleepingPosting(u32, u32),
   /// (inside a task only) sleep 1 ms, then post
   SleepThenPost(u32),
+  /// post a task that captures a guard; when the worker drops the finished task, the guard's destructor
+  /// posts task `.1` to the same scheduler / aborts it
+  PostDropPosting(u32, u32),
+  PostDropAborting(u32),
+  /// (as the destructor of a task's capture only)
+  OnDropPost(u32),
+  OnDropAbort,
   Abort,
 }
 
@@ -42,12 +49,30 @@ struct Log {
 
 type L = Arc<Mutex<Log>>;
 
+/// a capture whose destructor calls back into the scheduler
+struct DropAct {
+  log: L,
+  op: Op,
+  sch: NewThreadScheduler<'static>,
+}
+impl Drop for DropAct {
+  fn drop(&mut self) {
+    do_op(&self.log, &self.op, &self.sch);
+  }
+}
+
 fn task(log: &L, id: u32, inner: Option<Op>, sch: NewThreadScheduler<'static>) -> impl Fn() + Clone + Send + Sync + 'static {
   let log = log.clone();
+  let on_drop: Option<Arc<DropAct>> = match &inner {
+    Some(Op::OnDropPost(b)) => Some(Arc::new(DropAct { log: log.clone(), op: Op::Post(*b), sch: sch.clone() })),
+    Some(Op::OnDropAbort) => Some(Arc::new(DropAct { log: log.clone(), op: Op::Abort, sch: sch.clone() })),
+    _ => None,
+  };
   // a plain task holds no handle of the scheduler it is queued on: when the posters are done and
   // drop theirs, the tasks still queued have to run all the same
   let sch = if matches!(inner, Some(Op::Post(_)) | Some(Op::Abort) | Some(Op::SleepThenPost(_))) { Some(sch) } else { None };
   move || {
+    let _ = &on_drop;
     let i = {
       let mut l = log.lock().unwrap();
       l.runs.push((id, rxverif_rt::stamp(), 0, rxverif_rt::tid()));
@@ -76,10 +101,12 @@ fn do_op(log: &L, op: &Op, sch: &NewThreadScheduler<'static>) {
       let r = rxverif_rt::stamp();
       log.lock().unwrap().aborts.push((c, r));
     }
-    Op::SleepNow | Op::SleepThenPost(_) => {}
+    Op::SleepNow | Op::SleepThenPost(_) | Op::OnDropPost(_) | Op::OnDropAbort => {}
     Op::Pause(d) => thread::sleep(ms(*d)),
-    Op::Post(id) | Op::PostPosting(id, _) | Op::PostAborting(id) | Op::PostSleeping(id) | Op::PostSleepingPosting(id, _) => {
+    Op::Post(id) | Op::PostPosting(id, _) | Op::PostAborting(id) | Op::PostSleeping(id) | Op::PostSleepingPosting(id, _) | Op::PostDropPosting(id, _) | Op::PostDropAborting(id) => {
       let inner = match op {
+        Op::PostDropPosting(_, b) => Some(Op::OnDropPost(*b)),
+        Op::PostDropAborting(_) => Some(Op::OnDropAbort),
         Op::PostSleepingPosting(_, b) => Some(Op::SleepThenPost(*b)),
         Op::PostSleeping(_) => Some(Op::SleepNow),
         Op::PostPosting(_, b) => Some(Op::Post(*b)),
@@ -96,19 +123,19 @@ fn do_op(log: &L, op: &Op, sch: &NewThreadScheduler<'static>) {
 }
 
 fn has_abort(h: &[Vec<Op>]) -> bool {
-  h.iter().flatten().any(|o| matches!(o, Op::Abort | Op::PostAborting(_)))
+  h.iter().flatten().any(|o| matches!(o, Op::Abort | Op::PostAborting(_) | Op::PostDropAborting(_)))
 }
 
 fn all_tasks(h: &[Vec<Op>]) -> Vec<u32> {
   let mut v = vec![];
   for o in h.iter().flatten() {
     match o {
-      Op::Post(a) | Op::PostAborting(a) | Op::PostSleeping(a) => v.push(*a),
-      Op::PostPosting(a, b) | Op::PostSleepingPosting(a, b) => {
+      Op::Post(a) | Op::PostAborting(a) | Op::PostSleeping(a) | Op::PostDropAborting(a) => v.push(*a),
+      Op::PostPosting(a, b) | Op::PostSleepingPosting(a, b) | Op::PostDropPosting(a, b) => {
         v.push(*a);
         v.push(*b)
       }
-      Op::Abort | Op::SleepNow | Op::Pause(_) | Op::SleepThenPost(_) => {}
+      Op::Abort | Op::SleepNow | Op::Pause(_) | Op::SleepThenPost(_) | Op::OnDropPost(_) | Op::OnDropAbort => {}
     }
   }
   v
@@ -263,6 +290,10 @@ pub fn scenarios() -> Vec<Scn> {
     history_scn("c08/M{post x20, abort} burst", vec![(1..=20).map(Post).chain(std::iter::once(Abort)).collect()], Some(1), Some(2)),
     // ... and one beyond the usual powers of two a back-log threshold might be set to (seed C09-h: a helper
     // worker once more than 1024 tasks are pending); default schedule + every single preemption in the thorough tier
+    // a finished task is released on the worker: a capture whose destructor posts to / aborts the scheduler
+    // it ran on (the worker must not hold the queue's lock while it lets go of a task: seed C08-j)
+    history_scn("c08/M{post a whose capture posts b when it is dropped, post c}", vec![vec![PostDropPosting(1, 2), Post(3)]], Some(2), Some(4)),
+    history_scn("c08/M{post a whose capture aborts when it is dropped, post b}", vec![vec![PostDropAborting(1), Post(2)]], Some(2), Some(4)),
     // a long quiet period between two posts (an idle worker stays available: seed C09-i retires it after 1 s)
     history_scn("c08/M{post a, pause 60 s, post b} no abort", vec![vec![Post(1), Pause(60_000), Post(2)]], Some(2), Some(3)),
     history_scn("c08/M{post a, pause 60 s, post b, abort}", vec![vec![Post(1), Pause(60_000), Post(2), Pause(5), Abort]], Some(1), Some(2)),
